@@ -92,6 +92,13 @@ def via_route(heap, route, rng):
                     if kb:
                         s.load_bits(kb)
                     derived.append(s.to_cell())
+                    # ... and through a builder (Slice.to_builder / Builder.store_slice), also when every reference has been read
+                    try:
+                        from pytoniq_core.boc import Builder
+                        derived.append(s.to_builder().end_cell())
+                        derived.append(Builder().store_slice(s).end_cell())
+                    except Exception:
+                        pass
                     if kr and kb:
                         s2 = o.begin_parse()
                         s2.skip_bits(kb)
